@@ -39,16 +39,28 @@ namespace Spec
 
 def delivered (o : OpObs) : List Bytes := o.reads.filterMap (·.data)
 
-/-- the buffer after the first `k` deliveries -/
-def bufAt (ds : List Bytes) (k : Nat) : Bytes := (ds.take k).flatten
+/-- `f` holds for the buffer after the last delivery and for no earlier one
+    (`acc` = what was buffered before the first delivery) -/
+def hitsOnlyAtEnd (f : Bytes → Bool) : Bytes → List Bytes → Bool
+  | _, [] => false
+  | acc, [d] => f (acc ++ d)
+  | acc, d :: ds => !f (acc ++ d) && hitsOnlyAtEnd f (acc ++ d) ds
 
-/-- `∀ k, 1 ≤ k ≤ n → p k` -/
-def allUpTo (n : Nat) (p : Nat → Bool) : Bool := (List.range n).all fun k => p (k + 1)
+/-- `f` holds for the buffer after no delivery -/
+def neverHits (f : Bytes → Bool) : Bytes → List Bytes → Bool
+  | _, [] => true
+  | acc, d :: ds => !f (acc ++ d) && neverHits f (acc ++ d) ds
 
 /-! ### C02 -/
 
+/-- the prompt a `read_until_prompt(prompt=p)` call waits for -/
+def effPrompt (p : Option Pat) (configured : Option Pat) : Option Pat :=
+  match p with
+  | some p => some (Chan.anchor p)
+  | none => configured
+
 def c02Op (cfg : Cfg) (p : Option Pat) (o : OpObs) : Bool :=
-  let P := match p with | some p => some (Chan.anchor p) | none => cfg.prompt
+  let P := effPrompt p cfg.prompt
   let ds := delivered o
   match o.res with
   | .text out =>
@@ -58,12 +70,12 @@ def c02Op (cfg : Cfg) (p : Option Pat) (o : OpObs) : Bool :=
       match Chan.promptEnd P ds.flatten with
       | none => false
       | some n =>
-        !ds.isEmpty && out == text (ds.flatten.take n)
-          && allUpTo (ds.length - 1) fun k => (Chan.promptEnd P (bufAt ds k)).isNone
+        out == text (ds.flatten.take n)
+          && hitsOnlyAtEnd (fun b => (Chan.promptEnd P b).isSome) [] ds
   | .err .timeout | .err .hang =>
     match P with
     | none => true
-    | some P => allUpTo ds.length fun k => (Chan.promptEnd P (bufAt ds k)).isNone
+    | some P => neverHits (fun b => (Chan.promptEnd P b).isSome) [] ds
   | .err (.death _ _) => true
   | _ => false
 
@@ -83,8 +95,7 @@ def c04 (op : Op) (o : OpObs) : Bool :=
     match o.res with
     | .expect i before m after =>
       let buf := ds.flatten
-      !ds.isEmpty
-        && (allUpTo (ds.length - 1) fun k => !anyMatch pats (bufAt ds k))
+      hitsOnlyAtEnd (anyMatch pats) [] ds
         && (match pats[i]? with
             | none => false
             | some p =>
@@ -95,7 +106,7 @@ def c04 (op : Op) (o : OpObs) : Bool :=
                   && before == text (buf.take a) && after == text (buf.drop e)
                   && m == (buf.drop a).take (e - a)
                   && a ≤ e && e ≤ buf.length)
-    | .err .timeout | .err .hang => allUpTo ds.length fun k => !anyMatch pats (bufAt ds k)
+    | .err .timeout | .err .hang => neverHits (anyMatch pats) [] ds
     | .err (.death _ _) => true
     | _ => false
   | _ => true
@@ -154,9 +165,8 @@ def c03 (cfg : Cfg) (op : Op) (o : OpObs) : Bool :=
   | .readline e _ =>
     (match o.res with
      | .text t =>
-       t == text ds.flatten && e.isSuffixOf ds.flatten
-         && allUpTo (ds.length - 1) fun k => !e.isSuffixOf (bufAt ds k)
-     | .err .timeout | .err .hang => allUpTo ds.length fun k => !e.isSuffixOf (bufAt ds k)
+       t == text ds.flatten && hitsOnlyAtEnd (fun b => e.isSuffixOf b) [] ds
+     | .err .timeout | .err .hang => neverHits (fun b => e.isSuffixOf b) [] ds
      | .err (.death _ _) => true
      | _ => false)
     && o.reads.all fun r => r.n == 1
